@@ -11,6 +11,7 @@ package main
 import (
 	"fmt"
 	"reflect"
+	"regexp"
 	"runtime"
 	"runtime/debug"
 	"strings"
@@ -483,6 +484,11 @@ func runC11(cfg *runCfg) (*Summary, error) {
 		// vector.Node.Uint although the decode succeeds (known finding); the documents
 		// of the main stream carry non-negative numbers within int64 only
 		stripMinus(j.doc)
+		if i >= len(c11Builtins) && reBadBound.MatchString(j.Prog) {
+			// a bound that is not a number is converted with strconv and fails there (same class as D44)
+			sum.Distribution["skipped: counter loop with a non-numeric bound (known finding D44)"]++
+			continue
+		}
 		// D26: default(x) with a Go-typed argument allocates (known finding); keep it out of the main stream
 		if containsGoTypedDefault(j.Prog) {
 			sum.Distribution["skipped: default() with Go-typed argument (known finding D26)"]++
@@ -599,6 +605,8 @@ var c11Builtins = []string{
 	"for i := 0; i < 3; i++ {\nfor j := 2; j >= 0; j-- {\nfor l := 1; l != 3; l++ {\nts.I = l\nif j == 1 {\ncontinue\n}\nif l == 2 {\nbreak 2\n}\n}\n}\n}\nobj.Name = \"lit\"\nts.S = 'another literal of some length'\nobj.Id = jso.missing|default(\"dflt\")\n",
 	"ctx.x = jso.big\nobj.Status = x\nctx.y = 70000\nts.I = y\nif x == 70001 {\nts.U64 = atou(x)\n}\nswitch jso.big {\ncase 300:\nts.I = 1\ncase jso.big:\nts.I = atoi(jso.big)\n}\n",
 }
+
+var reBadBound = regexp.MustCompile(`for \w+ := [^\n]*\b(fvar|bvar|svar|nosuchvar)\b`)
 
 func stripMinus(v *JV) {
 	if v == nil {
